@@ -99,7 +99,7 @@ theorem workDenominator_pos (obj : Objective) (x d : Img) : ∀ v ∈ workDenomi
 /-- the stored denominator after at least one sub-iteration of a run started at `⟨img, d, start⟩` -/
 theorem loop_denom (p : Params) (obj : Objective) (start : Int) (img d : Img) (n : Nat) :
     (loop p obj start (n + 1) ⟨img, d, start⟩).denom
-      = if recomputePenalty obj then d else workDenominator obj (currentImage obj true img) d := by
+      = if recomputePenalty obj then d else workDenominator obj (currentImage obj img) d := by
   induction n with
   | zero =>
     show (updateEstimate p obj start ⟨img, d, start⟩).denom = _
@@ -121,7 +121,7 @@ theorem loop_denom (p : Params) (obj : Objective) (start : Int) (img d : Img) (n
 theorem denomUsed_pos_in_run (p : Params) (obj : Objective) (start : Int) (img d : Img) (n : Nat) :
     let s := loop p obj start n ⟨img, d, start⟩
     let first := s.k == start
-    ∀ v ∈ denomUsed obj first (currentImage obj first s.image) s.denom, 0 < v := by
+    ∀ v ∈ denomUsed obj first (currentImage obj s.image) s.denom, 0 < v := by
   intro s first
   cases n with
   | zero =>
@@ -137,7 +137,7 @@ theorem denomUsed_pos_in_run (p : Params) (obj : Objective) (start : Int) (img d
     · rw [if_pos hr]
       exact workDenominator_pos obj _ _
     · rw [if_neg hr]
-      have hd : s.denom = workDenominator obj (currentImage obj true img) d := by
+      have hd : s.denom = workDenominator obj (currentImage obj img) d := by
         have := loop_denom p obj start img d n
         rw [if_neg hr] at this
         exact this
@@ -177,17 +177,17 @@ theorem workDenominator_congr (obj : Objective) (x x' d : Img)
 
 /-- The restart argument.  `s0 = ⟨img0, d0, 1⟩` is the state after `set_up` of the uninterrupted run, `sk` the state after
     `k ≥ 1` sub-iterations.  A fresh object set up on the saved image `sk.image` with `start_subiteration_num = k+1` is, after
-    its first sub-iteration, in exactly the state of the uninterrupted run — hence for ever after. -/
+    its first sub-iteration, in exactly the state of the uninterrupted run — hence for ever after.
+    (No condition on the non-identifiable voxels: they are zeroed at the start of every sub-iteration of every run.) -/
 theorem restart_core (p : Params) (obj : Objective) (img0 d0 : Img) (k : Nat) (hk : 1 ≤ k)
-    (hcurv : obj.priorIsZero = false → obj.curvDepends = false → ∀ a b, obj.curv a = obj.curv b)
-    (hfix : obj.fillNonIdent (loop p obj 1 k ⟨img0, d0, 1⟩).image = (loop p obj 1 k ⟨img0, d0, 1⟩).image) :
+    (hcurv : obj.priorIsZero = false → obj.curvDepends = false → ∀ a b, obj.curv a = obj.curv b) :
     let sk := loop p obj 1 k ⟨img0, d0, 1⟩
     ∀ m : Nat, 1 ≤ m → loop p obj ((k : Int) + 1) m ⟨sk.image, d0, (k : Int) + 1⟩ = loop p obj 1 m sk := by
   intro sk m hm
   obtain ⟨k', rfl⟩ : ∃ k', k = k' + 1 := ⟨k - 1, by omega⟩
   obtain ⟨m', rfl⟩ : ∃ m', m = m' + 1 := ⟨m - 1, by omega⟩
   have hskk : sk.k = 1 + ((k' + 1 : Nat) : Int) := loop_k p obj 1 (k' + 1) _
-  have hskd : sk.denom = if recomputePenalty obj then d0 else workDenominator obj (currentImage obj true img0) d0 :=
+  have hskd : sk.denom = if recomputePenalty obj then d0 else workDenominator obj (currentImage obj img0) d0 :=
     loop_denom p obj 1 img0 d0 k'
   -- the first sub-iteration of the resumed run equals the next sub-iteration of the uninterrupted run
   have hfirst : step p obj (((k' + 1 : Nat) : Int) + 1) ⟨sk.image, d0, ((k' + 1 : Nat) : Int) + 1⟩ = step p obj 1 sk := by
@@ -195,13 +195,9 @@ theorem restart_core (p : Params) (obj : Objective) (img0 d0 : Img) (k : Nat) (h
     have hkeq : sk.k = ((k' + 1 : Nat) : Int) + 1 := by rw [hskk]; ring
     unfold step updateEstimate
     simp only [beq_self_eq_true, hne]
-    have hx : currentImage obj true sk.image = sk.image := by
-      unfold currentImage; simp only [if_true]; exact hfix
-    have hx' : currentImage obj false sk.image = sk.image := by
-      unfold currentImage; simp
-    rw [hx, hx', denomUsed_first, denomStored_first, denomUsed_not_first, denomStored_not_first]
-    have hD : workDenominator obj sk.image d0
-        = (if recomputePenalty obj then workDenominator obj sk.image sk.denom else sk.denom) := by
+    rw [denomUsed_first, denomStored_first, denomUsed_not_first, denomStored_not_first]
+    have hD : workDenominator obj (currentImage obj sk.image) d0
+        = (if recomputePenalty obj then workDenominator obj (currentImage obj sk.image) sk.denom else sk.denom) := by
       by_cases hr : recomputePenalty obj = true
       · rw [if_pos hr, hskd, if_pos hr]
       · rw [if_neg hr, hskd, if_neg hr]
@@ -212,7 +208,7 @@ theorem restart_core (p : Params) (obj : Objective) (img0 d0 : Img) (k : Nat) (h
           rw [hp] at hr
           simpa using hr
         exact hcurv hp hcd _ _
-    have hS : (if recomputePenalty obj then d0 else workDenominator obj sk.image d0) = sk.denom := by
+    have hS : (if recomputePenalty obj then d0 else workDenominator obj (currentImage obj sk.image) d0) = sk.denom := by
       by_cases hr : recomputePenalty obj = true
       · rw [if_pos hr, hskd, if_pos hr]
       · rw [if_neg hr, hD, if_neg hr]
